@@ -47,7 +47,14 @@ Adv == <<
   <<36,36>>,                                \* $$
   <<39,39>>,                                \* ''
   <<92,92>>,                                \* two backslashes
-  <<85,38,39,120,39>>                       \* U&'x'
+  <<85,38,39,120,39>>,                      \* U&'x'
+  <<44>>,                                   \* ,
+  <<120,44,121>>,                           \* x,y
+  <<44,32,39>>,                             \* , '
+  <<42>>,                                   \* * written quoted / escaped: a value, not the unbounded marker
+  <<63>>,                                   \* ?  (escaped / quoted)
+  <<32>>,                                   \* a single space
+  <<91,49,93>>                              \* [1]
 >>
 \* texts that Go's ParseFloat accepts or nearly accepts, typed bare
 NumLike == << <<78,97,78>>, <<73,110,102>>, <<105,110,102,105,110,105,116,121>>, <<110,97,110>>, <<49,101,57,57,57>>,
@@ -68,6 +75,10 @@ ValueCases(w) ==
            Case("gt", F \o <<58,62>> \o s, {F}, {w}, ""),
            Case("range", F \o <<58,91>> \o s \o <<32,84,79,32>> \o s \o <<93>>, {F}, {w}, ""),
            Case("rangeopen", F \o <<58,123>> \o s \o <<32,84,79,32,42,125>>, {F}, {w, <<42>>}, ""),
+           Case("range_lo", F \o <<58,91>> \o s \o <<32,84,79,32,122,93>>, {F}, {w, <<122>>}, ""),       \* f:[s TO z]
+           Case("range_hi", F \o <<58,91,97,32,84,79,32>> \o s \o <<93>>, {F}, {w, <<97>>}, ""),          \* f:[a TO s]
+           Case("range_num", F \o <<58,91>> \o s \o <<32,84,79,32,53,93>>, {F}, {w}, ""),                 \* f:[s TO 5]
+           Case("range_num2", F \o <<58,123,53,32,84,79,32>> \o s \o <<125>>, {F}, {w}, ""),              \* f:{5 TO s}
            Case("list", F \o <<58,40>> \o s \o <<32,79,82,32>> \o X \o <<41>>, {F}, {w, X}, ""),
            Case("not", <<78,79,84,32>> \o F \o Colon \o s, {F}, {w}, ""),
            Case("and", F \o Colon \o s \o <<32,65,78,68,32,103,58,121>>, {F, <<103>>}, {w, <<121>>}, ""),
